@@ -2,6 +2,7 @@
 import json
 
 import storefam
+import storefamx
 import vlib
 
 PID = "C03"
@@ -181,7 +182,68 @@ def index_read_oracle(sch, tx):
     return probs
 
 
+def bogus_duplicate_oracle(sch, tx_toks, results, before):
+    """A create / update is refused with UniqueIndexDuplicateError only if it would give two entities the same unique
+    value (theorems unique_duplicate_only_when_held_update / _create).  Evaluated when the FIRST operation of a transaction is the one
+    refused with that error, so that the facts observed before the transaction are the state it ran in: some unique
+    index of the operation's store family must then map a non-empty value the operation supplies for its field to
+    ANOTHER entity (fields the field checker leaves alone keep their value, which by the mirror property nobody else
+    holds, so ignoring the checker only makes this oracle more lenient)."""
+    if results != ["dup"]:
+        return []
+    try:
+        ops = storefamx.parse_ops(tx_toks)[3]
+    except (IndexError, ValueError):
+        return []
+    if not ops or ops[0].get("kind") not in ("C", "UP"):
+        return []
+    op = ops[0]
+    root = sch.root(op["store"])
+    ents, fvals, child = set(), {}, set()
+    for f in before:
+        p = f.split(":")
+        if p[0] == "E" and p[1] == root:
+            ents.add(p[2])
+        elif p[0] == "F" and p[1] == root:
+            fvals[(p[2], p[3])] = p[4]
+        elif p[0] == "CF" and p[1] == root:
+            fvals[(p[2], p[3] + "." + p[4])] = p[5]
+        elif p[0] == "C" and p[1] == root:
+            child.add((p[2], p[3]))
+    uniques = []
+    for sname in sch.order:
+        if sch.root(sname) != root:
+            continue
+        for c in sch.stores[sname]["cons"]:
+            if c[0] == "U":
+                uniques.append((sname, c[1]))
+    for sname, field in uniques:
+        v = op["fv"].get(field, "N")
+        if v in ("N", "-"):
+            continue
+        key = field if not sch.stores[sname]["parent"] else sname + "." + field
+        for j in ents:
+            if j != op["id"] and fvals.get((j, key)) == "s" + v and (not sch.stores[sname]["parent"] or (j, sname) in child):
+                return []
+    supplied = ", ".join("%s.%s=%s" % (sn, f, op["fv"].get(f, "N")) for sn, f in uniques)
+    return ["%s of %s %s is refused with UniqueIndexDuplicateError although no other entity holds any of the unique values it "
+            "supplies (%s)" % ("create" if op["kind"] == "C" else "update", op["store"], _unhex(op["id"]), supplied)]
+
+
+def _typed_note(sch):
+    if getattr(sch, "wiring", "").startswith("c03typ"):
+        return (" [wiring %s has int64/int32/bool/float64/datetime fields: values are shown in their storage encoding = index "
+                "key (integers and floats little endian, bool 00/01, datetime = time.MarshalBinary)]" % sch.wiring)
+    return ""
+
+
 def oracle(sch, txs, io, mo):
+    out = _oracle(sch, txs, io, mo)
+    note = _typed_note(sch)
+    return [(key, desc + note, k) for key, desc, k in out] if note else out
+
+
+def _oracle(sch, txs, io, mo):
     out = []
     prev = []
     for k, a in enumerate(io):
@@ -210,6 +272,10 @@ def oracle(sch, txs, io, mo):
             if fa != fp:
                 out.append(("C03:rejected-op-changed-state", "a rejected operation changed entities or indexes: +%s -%s" % (
                     sorted(set(fa) - set(fp))[:4], sorted(set(fp) - set(fa))[:4]), k))
+                break
+            bd = bogus_duplicate_oracle(sch, txs[k] if k < len(txs) else [], a["results"], prev)
+            if bd:
+                out.append(("C03:duplicate-error-without-duplicate", "; ".join(bd), k))
                 break
         prev = a["facts"]
     return out
@@ -254,7 +320,15 @@ def main(argv):
                         "that one indexed field holds into ANOTHER indexed or plain field of the same store family (unique->unique, unique->set, "
                         "set->unique, set->set). After every transaction every unique and set index is also read through its API "
                         "(ReadIndex.Read, SetReadIndex.Read/ReadKeys) with every string stored anywhere in the database, and compared with the "
-                        "entities; index entries the raw traversal finds in a bucket the schema declares no index (of that kind) for are reported.",
+                        "entities; index entries the raw traversal finds in a bucket the schema declares no index (of that kind) for are reported. "
+                        "A further quarter of the histories (third random stream, store_c03t.go) runs on wirings whose harness entity has int64 / "
+                        "int32 / bool / float64 / datetime fields - persisted and read with the typed setters / getters, given to the machine as the "
+                        "byte strings of their storage encoding, which are the index keys - with unique indexes on them (nullable and not, root and "
+                        "child store, symbol name != key, base path depth 1-3) and per-type value universes at the type boundaries (0, -1, min, max, "
+                        "-0.0, NaN, +-Inf, zero time, times 1 ns apart, a time without RFC 3339 text, numbers whose raw bytes are the decimal text of "
+                        "another member); their warm histories also change a unique value by FULL updates. A transaction whose first operation is "
+                        "refused with UniqueIndexDuplicateError is checked against the facts observed before it: some unique index of the family must "
+                        "map a value the operation supplies to another entity (unique_duplicate_only_when_held_update / _create).",
                         command="store_c03s")
     if not proof_ok:
         c.violation(PID + ":proof", "proof obligation no longer checks: %s" % json.dumps(c.proof_broken)[:600],
